@@ -77,3 +77,23 @@ theorem world_log_total (H : HashFn) (w : W.World) (hk : W.K H w) (head : Bytes)
     exact absurd hr2 (by intro h; exact hne r2 h)
 
 end C14
+
+namespace C14
+
+/-- **`log -n k` succeeds and changes nothing in every state a history reaches** in which HEAD's branch has a commit
+    (whole-repository model) -/
+theorem world_log_ok (H : HashFn) (w : W.World) (n : Int) (tz : Int) (ts : List Int) (l : W.Loaded) (id : Bytes) (c : Commit)
+    (hinit : w.inited = true) (hl : W.load H w = some l) (hk : W.K H w) (hh : l.headCommit = some (id, c)) :
+    (W.run H w ⟨.log n, tz, ts⟩).1 = w ∧ (W.run H w ⟨.log n, tz, ts⟩).2 = .ok none := by
+  obtain ⟨hca, raw, hraw, _⟩ := W.load_headCommit H w l hl id c hh
+  have hne : w.heads.isEmpty = false := by
+    cases hw : w.heads with
+    | nil => rw [hw] at hraw; simp [W.aget] at hraw
+    | cons x xs => rfl
+  obtain ⟨r, hr, _⟩ := world_log_total H w hk id (by rw [hca]; rfl) n
+  unfold W.run
+  simp only [hinit, Bool.not_true, Bool.false_eq_true, if_false, W.pathArgs, List.all_nil, hl, hh, Option.map_some, Option.getD_some,
+    Cmds.logCmd, hne, hr, Res.map, Option.isNone_some]
+  exact ⟨trivial, by simp⟩
+
+end C14
